@@ -492,4 +492,15 @@ func rulesC13(e *Engine, r *Report) {
 			}
 		}
 	}
+	// ---------------------------------------------------------------- R13.9
+	r.Rule("R13.9", "the two routes that decode a payload header decode it the same way: /data and /data-recovery both hand the decoder the separator the SENDER announced (the X-STS-Sep header of the request) - otherwise the same header yields different names on the two routes and `which of these parts do you hold?` is answered about names the data route never stored")
+	for _, name := range []string{"http.(*Server).routeData", "http.(*Server).routeDataRecovery"} {
+		if fn := needFn(e, r, "R13.9", name); fn != nil {
+			sep := e.constOr("http", "HeaderSep")
+			df := e.findInstrs(fn, "dyn(p0.DecoderFactory)(§, call(http.(Header).Get)(p2.Header, "+sep+"), §)", false)
+			all := e.findInstrs(fn, "dyn(p0.DecoderFactory)(§)", false)
+			r.Check(len(df) == 1 && len(all) == 1, "R13.9", name+": DecoderFactory(…, request's X-STS-Sep, body)", e.Pos(fn.Pos()),
+				"the route does not decode with the separator announced by the sender", 1)
+		}
+	}
 }
